@@ -5,7 +5,7 @@ import re
 import sys
 
 import driver as D
-from driver import Job, CmdJob, S, LIBC, PERM_UF, SPEC, KDFSPEC, ABSHASH, CLEAN, HASH_REAL
+from driver import Job, CmdJob, S, LIBC, PERM_UF, SPEC, KDFSPEC, ABSHASH, CLEAN, HASH_REAL, HARN
 
 KSS = (128, 192, 256)
 PROPS = {}
@@ -450,6 +450,164 @@ def c13(tier):
                                       "(byte-punned fields over a nondet base); it is therefore decided as wrapper contract + stream lemma"],
         "relies_on": ["C12 at key length 32", "C10/C11/C20 hash contract"],
     }
+    return jobs, meta
+
+
+ABSFOLD = [os.path.join(HARN, "stubs/abs_hash_fold.c")]
+FOLD_STUB = ("hash API (tinyjambu_hash*): Cut 2, fold encoding - state' = A(state, byte), digest = F(state) with A, F uninterpreted "
+             "functions over the full 56-byte state (harness/stubs/abs_hash_fold.c); the real hash is an instance of this scheme "
+             "by C11 (byte-wise fold, any chunking), C10 and C20")
+
+
+def cut2fold(name, harness, defines, extra_srcs, facet, tier, unwind=340, timeout=None, instrument=()):
+    d = dict(defines)
+    d["VERIF_CUT2"] = None
+    return Job(name, harness, d, LIBC + ABSFOLD + KDFSPEC + CLEAN + extra_srcs, CUT2_NATIVE + extra_srcs, backend="z3",
+               unwind=unwind, timeout=timeout or (900 if tier == "quick" else 3000), facet=facet, instrument=instrument)
+
+
+@prop("C14")
+def c14(tier):
+    jobs = []
+    if tier == "quick":
+        fshapes = [(c, pw, sa) for c in (0, 1) for (pw, sa) in ((0, 0), (5, 3), (64, 16), (65, 3))] + \
+                  [(c, pw, sa) for c in (2, 3) for (pw, sa) in ((5, 3), (65, 0))]
+        oshapes = [(o, 1, 5, 3) for o in (0, 1, 31, 32, 33, 64, 65)] + [(33, 2, 0, 0)]
+    else:
+        fshapes = [(c, pw, sa) for c in (0, 1, 2, 3, 4, 5) for (pw, sa) in ((0, 0), (5, 3), (64, 16), (65, 3), (100, 0))]
+        oshapes = [(o, 1, 5, 3) for o in (0, 1, 31, 32, 33, 63, 64, 65, 96, 100)] + [(33, 2, 0, 0), (65, 3, 65, 16), (40, 0, 5, 3)]
+    for (c, pw, sa) in fshapes:
+        jobs.append(cut2fold("pbkdf2-F-c%d-pw%d-s%d" % (c, pw, sa), "c14_pbkdf2.c",
+                             {"VARIANT": 0, "COUNT": c, "PWLEN": pw, "SALTLEN": sa}, HMAC_SRC, "F function, symbolic 32-bit block number", tier))
+    for (o, c, pw, sa) in oshapes:
+        jobs.append(cut2fold("pbkdf2-out%d-c%d-pw%d-s%d" % (o, c, pw, sa), "c14_pbkdf2.c",
+                             {"VARIANT": 1, "OUTLEN": o, "COUNT": c, "PWLEN": pw, "SALTLEN": sa}, HMAC_SRC, "whole function == RFC 8018", tier))
+    for o in (0, 1, 33, 64, 300) if tier == "quick" else (0, 1, 31, 32, 33, 64, 65, 8160, 8192, 8193, 8224, 16385):
+        j = Job("pbkdf2-outer-loop-out%d" % o, "c14_pbkdf2.c", {"VARIANT": 2, "OUTLEN": o, "PWLEN": 2, "SALTLEN": 2, "static": ""},
+                LIBC + CLEAN, CLEAN, backend="sat", unwind=o + 40, timeout=900, facet="outer loop with F stubbed: > 255 blocks",
+                instrument=[(S("tinyjambu-pbkdf2.c")[0], ["tinyjambu_pbkdf2_f"])])
+        jobs.append(j)
+    meta = {
+        "functions": ["tinyjambu_pbkdf2", "tinyjambu_pbkdf2_f (static; reached by #including the TU)", "tinyjambu_hmac_* (real code)"],
+        "units": ["src/tinyjambu-pbkdf2.c", "src/tinyjambu-hmac.c", "src/backend/tinyjambu-clean.c"],
+        "bounds": "F: iteration count 0..3 (thorough 0..5), password lengths {0,5,64,65(,100)}, salt lengths {0,3,16}, block number a "
+                  "symbolic 32-bit value; whole function: output lengths {0,1,31,32,33,64,65} (thorough + 63,96,100); outer loop with F "
+                  "replaced by a recording stub (compiled with -Dstatic= so that the stub can be linked): output lengths up to 8224 "
+                  "(257 blocks; thorough 16385 = 513 blocks): block numbers 1,2,3,..., offsets, truncation of the last block, count "
+                  "passed through as a symbolic 32-bit value",
+        "outside": "iteration counts above 5 in a single query (the loop body is uniform: count only controls the trip count of "
+                   "`while (count > 2)`); passwords longer than 100 bytes",
+        "stubs": ["memcpy/memset/explicit_bzero: byte loops", FOLD_STUB, CUT2_STUBS[2]],
+        "assumptions": AEAD_ASSUME, "relies_on": ["C12 (same real hmac.c is linked here, so not an assumption)", "C10/C11/C20 hash contract"],
+    }
+    return jobs, meta
+
+
+# ---- PRNG: C15 / C16 / C17 ----------------------------------------------------------------------
+def prng(name, defines, facet, tier, timeout=None, unwind=140):
+    return cut2fold(name, "c15_prng.c", defines, [], facet, tier, unwind=unwind, timeout=timeout)
+
+
+PRNG_META = {
+    "units": ["src/tinyjambu-prng.c (#included by the harness to reach the private state layout)", "src/backend/tinyjambu-clean.c"],
+    "stubs": ["memcpy/memset/explicit_bzero: byte loops", FOLD_STUB,
+              "entropy callback: writes K symbolic bytes into the buffer and returns K (K concrete per query: 0, 1, 31, 32), logs size / user data / "
+              "buffer contents before", "tinyjambu_trng_generate (system source, C17 NULL-callback query only): 32 symbolic bytes, symbolic status",
+              "oracle: models/kdf_spec.c spec_drbg_*, written from SP 800-90A r1 10.1.1 / 10.3.1 with the documented deviations"],
+    "assumptions": AEAD_ASSUME + ["the state object is exactly the 88-byte private struct (any access to the 8 padding bytes of the public type "
+                                  "is a bounds failure), except for init which memsets the public size"],
+    "relies_on": ["C10/C11/C20 hash contract (Cut 2)"],
+}
+
+
+@prop("C15")
+def c15(tier):
+    jobs = []
+    sizes = (1, 31, 32, 33, 64, 70) if tier == "quick" else (1, 2, 31, 32, 33, 63, 64, 65, 70, 96, 97)
+    for sz in sizes:
+        jobs.append(prng("gen-size%d-noreseed" % sz, {"VARIANT": 1, "SIZE": sz, "CTR": 1, "LIMIT": 32}, "generate: no reseed inside", tier))
+        for k in ((32, 1) if tier == "quick" else (32, 31, 1, 0)):
+            jobs.append(prng("gen-size%d-reseed-first-k%d" % (sz, k), {"VARIANT": 1, "SIZE": sz, "CTR": 33, "LIMIT": 32, "K": k}, "generate: reseed before the first block", tier))
+            if sz > 32:
+                jobs.append(prng("gen-size%d-reseed-inside-k%d" % (sz, k), {"VARIANT": 1, "SIZE": sz, "CTR": 32, "LIMIT": 32, "K": k}, "generate: reseed falls inside the call", tier))
+    jobs.append(prng("gen-size0", {"VARIANT": 1, "SIZE": 0, "CTR": 40, "LIMIT": 32}, "generate(0) changes nothing", tier))
+    jobs.append(prng("gen-size40-limit1", {"VARIANT": 1, "SIZE": 40, "CTR": 1, "LIMIT": 1, "K": 32}, "generate: limit 1, reseed every block", tier))
+    for ln in (range(0, 9) if tier == "quick" else list(range(0, 9)) + [31, 32, 33, 64]):
+        jobs.append(prng("feed-len%d" % ln, {"VARIANT": 2, "LEN": ln}, "feed", tier))
+    for k in (0, 1, 31, 32):
+        jobs.append(prng("reseed-k%d" % k, {"VARIANT": 3, "K": k}, "reseed", tier))
+        for cl in ((0, 3, 8) if tier == "quick" else range(0, 9)):
+            jobs.append(prng("init-custom%d-k%d" % (cl, k), {"VARIANT": 4, "CUSTOMLEN": cl, "K": k}, "init_user on arbitrary prior contents", tier))
+    jobs.append(prng("setlimit", {"VARIANT": 5}, "set_reseed_limit(symbolic)", tier))
+    jobs.append(prng("dep-feed", {"VARIANT": 7, "OP": 0, "LEN": 4}, "new state depends on the old state", tier))
+    jobs.append(prng("dep-reseed", {"VARIANT": 7, "OP": 1}, "new state depends on the old state", tier))
+    meta = dict(PRNG_META)
+    meta.update({
+        "functions": ["tinyjambu_prng_generate", "tinyjambu_prng_feed", "tinyjambu_prng_reseed", "tinyjambu_prng_init_user",
+                      "tinyjambu_prng_set_reseed_limit", "tinyjambu_hash_df / tinyjambu_hash_prefixed (static)"],
+        "bounds": "one operation from an ARBITRARY state (V, C symbolic; counter/limit concrete per case): generate sizes {1,31,32,33,64,70} "
+                  "(thorough up to 97) without reseed / reseed before the first block / reseed inside the call, deliveries K in {32,1} "
+                  "(thorough {32,31,1,0}); feed lengths 0..8 (thorough + 31..64) with symbolic counter; reseed; init with custom lengths {0,3,8} "
+                  "(thorough 0..8) x K in {0,1,31,32}; set_reseed_limit with a symbolic 64-bit argument; the 256-bit add V + H + C + counter is "
+                  "compared with the model for all V, H, C (H outputs are unconstrained). By induction over operations: every call history.",
+        "outside": "a single generate call longer than 97 bytes; fed / custom strings longer than the listed lengths; the induction over the "
+                   "operation sequence is stated, not machine-checked",
+    })
+    return jobs, meta
+
+
+@prop("C16")
+def c16(tier):
+    jobs = []
+    for sz in ((0, 1, 32, 33, 64, 65) if tier == "quick" else (0, 1, 31, 32, 33, 64, 65, 96, 97)):
+        jobs.append(prng("inv-gen-size%d" % sz, {"VARIANT": 1, "SIZE": sz, "SYM": None}, "invariant step: generate, symbolic counter/limit/E", tier,
+                         timeout=900 if tier == "quick" else 3000))
+    for ln in (0, 5):
+        jobs.append(prng("inv-feed-len%d" % ln, {"VARIANT": 2, "LEN": ln}, "invariant step: feed (symbolic counter)", tier))
+    for k in (0, 32):
+        jobs.append(prng("inv-reseed-k%d" % k, {"VARIANT": 3, "K": k}, "invariant step: reseed (symbolic counter)", tier))
+        jobs.append(prng("inv-init-k%d" % k, {"VARIANT": 4, "CUSTOMLEN": 2, "K": k}, "invariant step: init sets limit 32 blocks, counter 1", tier))
+    jobs.append(prng("inv-setlimit", {"VARIANT": 5}, "invariant step: set_reseed_limit(symbolic size_t)", tier))
+    # concrete walks across a lowered limit
+    jobs.append(prng("gen-size40-limit1", {"VARIANT": 1, "SIZE": 40, "CTR": 1, "LIMIT": 1, "K": 32}, "limit 1: one request per block", tier))
+    jobs.append(prng("gen-size33-lowered-limit", {"VARIANT": 1, "SIZE": 33, "CTR": 20, "LIMIT": 2, "K": 32}, "lowered limit acts at the next block", tier))
+    meta = dict(PRNG_META)
+    meta.update({
+        "functions": ["tinyjambu_prng_generate", "tinyjambu_prng_feed", "tinyjambu_prng_reseed", "tinyjambu_prng_init_user", "tinyjambu_prng_set_reseed_limit"],
+        "bounds": "inductive invariant I: 1 <= counter, 1 <= limit <= 32768, E <= 32*(counter-1) with ghost E = bytes emitted since the last entropy "
+                  "request (blocks counted by a ghost in the abstract hash, reset in the callback stub). Steps from an arbitrary state satisfying I "
+                  "with counter, limit and E SYMBOLIC: generate(size in {0,1,32,33,64,65}; thorough + 31,96,97): I preserved, and whenever the call "
+                  "emitted, E <= 32*limit at every request and at return; feed: counter strictly increases, no request; reseed/init: one request, "
+                  "counter 1; set_reseed_limit(x) for a symbolic 64-bit x: limit = max(1, ceil(min(x, 2^20)/32)). Induction covers every "
+                  "interleaving of every length.",
+        "outside": "a single generate call longer than 97 bytes; the induction meta-step is stated, not machine-checked",
+    })
+    return jobs, meta
+
+
+@prop("C17")
+def c17(tier):
+    jobs = []
+    for k in (0, 1, 31, 32):
+        jobs.append(prng("status-reseed-k%d" % k, {"VARIANT": 3, "K": k}, "reseed status and post-state", tier))
+        for cl in (0, 5):
+            jobs.append(prng("status-init-custom%d-k%d" % (cl, k), {"VARIANT": 4, "CUSTOMLEN": cl, "K": k}, "init status and post-state", tier))
+    for k in (1, 31):
+        jobs.append(prng("short-delivery-mixed-reseed-k%d" % k, {"VARIANT": 8, "OP": 1, "K": k}, "short delivery still mixed in", tier))
+        jobs.append(prng("short-delivery-mixed-init-k%d" % k, {"VARIANT": 8, "OP": 0, "K": k}, "short delivery still mixed in", tier))
+    for cl in (0, 3):
+        jobs.append(prng("null-callback-custom%d" % cl, {"VARIANT": 6, "CUSTOMLEN": cl}, "NULL callback == plain init", tier))
+    for (sz, k) in ((33, 0), (64, 1)):
+        jobs.append(prng("usable-after-failure-size%d-k%d" % (sz, k), {"VARIANT": 1, "SIZE": sz, "CTR": 33, "LIMIT": 32, "K": k},
+                         "generate after a failed delivery follows the model (memory safe, advancing state)", tier))
+    meta = dict(PRNG_META)
+    meta.update({
+        "functions": ["tinyjambu_prng_init", "tinyjambu_prng_init_user", "tinyjambu_prng_reseed", "tinyjambu_prng_generate", "tinyjambu_prng_system (static)"],
+        "bounds": "deliveries K in {0,1,31,32} for init (custom lengths 0, 5; NULL custom pointer for 0) and reseed: status != 0 <=> K == 32, post-state == "
+                  "model with the delivered prefix mixed in; negated-dependence queries show the K delivered bytes influence the new state; NULL "
+                  "callback vs plain init with the system source stubbed: same status, same calls, byte-identical 96-byte state",
+        "outside": "'nor return constant output' beyond model conformance (block i is H(V_i) with V advancing) is not a solver statement",
+    })
     return jobs, meta
 
 
